@@ -607,7 +607,7 @@ pub fn run_c06(args: &Args) -> i32 {
             "exhaustive_note": "complete within the stated edit distance / length / product bounds; the set of all byte strings is not finite",
             "samples": [{"input": String::from_utf8_lossy(&sample), "result": format!("{:?}", chess_movegen::fen::parse_fen(&sample).map(|b| b.to_string()))}],
         }),
-        &["invariants of an accepted board are read back through accessors (rights / marker from the Debug header) and evaluated by the reference model", "panics are observed with catch_unwind; aborts are C07's business (trapping build in worker processes)"],
+        &["invariants of an accepted board are read back through accessors (rights / marker from the Debug header) and evaluated by the reference model", "panics are observed with catch_unwind; aborts are C07's business (trapping build in worker processes)", "the parser also accepts some non-canonical spellings (a '/' is optional, ranks wrap by themselves, a blank inside the placement is skipped); the property only requires that what it accepts is playable, so WHICH board such a text yields is not compared - canonical texts are compared square by square (C05, and pass 5 here)"],
     )
 }
 
